@@ -12,7 +12,8 @@ git -C $D/repo checkout -q --detach $(git -C /repo rev-parse HEAD) 2>/dev/null
 git -C $D/repo checkout -- . ; git -C $D/repo clean -fdq -e target
 if [ "$PATCH" != "none" ]; then git -C $D/repo apply "$PATCH" || { echo "PATCH-FAILED $PATCH"; exit 98; }; fi
 mkdir -p $D/harness
-rsync -a --delete --exclude target /verif/harness/ $D/harness/
+# the COMMITTED harness (immune to work in progress in /verif)
+rm -rf $D/harness.new && mkdir -p $D/harness.new && git -C /verif archive HEAD harness | tar -x -C $D/harness.new && rsync -a --delete --exclude target $D/harness.new/harness/ $D/harness/ && rm -rf $D/harness.new
 sed -i "s#path = \"/repo\"#path = \"$D/repo\"#" $D/harness/Cargo.toml
 cd /verif
 ASV_HARNESS_DIR=$D/harness ASV_OUT_DIR=$D/out ASV_TARGET_PREFIX=$D/target- timeout 3600 ./check $CHECK --tier $TIER > $D/last.log 2>&1
